@@ -8,6 +8,7 @@ import (
 	"fmt"
 	authtypes "github.com/cosmos/cosmos-sdk/x/auth/types"
 	"math/rand"
+	"os"
 	"sort"
 	"strings"
 	"time"
@@ -1069,12 +1070,19 @@ func (g *Gen) Step() {
 }
 
 // RandomHistory runs one random hostile history of n steps.
+// forceCommit (CHAINMON_COMMIT=1) runs every random history in commit mode (experiments).
+var forceCommit = os.Getenv("CHAINMON_COMMIT") == "1"
+
 func RandomHistory(a *App, mon *Mon, seed int64, n int) *Run {
 	rng := rand.New(rand.NewSource(seed))
 	params := RandParams(rng)
 	// some histories start just below a byte boundary of the big-endian height keys
 	start := []int64{10, 10, 1, 2, 250, 65530, 1<<32 - 6, 1 << 40}[pick(rng, 8)]
-	r := NewRunAt(a, fmt.Sprintf("random-%d", seed), seed, params, mon, start)
+	// every fourth history runs on a chain of its own through the application's real
+	// BeginBlock / EndBlock / Commit (decided by the seed, not by a PRNG draw, so that the
+	// histories themselves stay as they were)
+	commit := seed%4 == 3 || forceCommit
+	r := NewRunOpt(a, fmt.Sprintf("random-%d", seed), seed, params, mon, start, commit)
 	act := MakeActors()
 	mid := []int64{3, 10, 40, 500}[pick(r.rng, 4)]
 	poor := []int64{0, 1, 2, 5}[pick(r.rng, 4)]
